@@ -68,7 +68,7 @@ def make_initial(name, n, dim, precision, cap, seed):
     kw = dict(precision=precision, max_bond_dim=cap, num_gpus_to_use=0, eigenstates=eigenstates(dim))
     if name == "product":
         return MPS.make(n, **kw)
-    if name == "ghz":
+    if name in ("ghz", "ghz_padded"):
         f = []
         for i in range(n):
             l, r_ = (1 if i == 0 else 2), (1 if i == n - 1 else 2)
@@ -77,6 +77,15 @@ def make_initial(name, n, dim, precision, cap, seed):
                 t[min(s, l - 1), s, min(s, r_ - 1)] = 1.0
             f.append(_t(t))
         f[0] = f[0] / np.sqrt(2)
+        if name == "ghz_padded":
+            # the same state with every bond widened by one unused (all-zero) channel: exact zeros in the Schmidt spectrum
+            g = []
+            for i, t in enumerate(f):
+                l, _, r_ = t.shape
+                b = torch.zeros(l + (0 if i == 0 else 1), dim, r_ + (0 if i == n - 1 else 1), dtype=torch.complex128)
+                b[:l, :, :r_] = t
+                g.append(b)
+            f = g
         return MPS(f, orthogonality_center=None, **kw)
     if name == "near_iso":
         # a product state typed with six decimals: every factor is an isometry only up to ~1e-7 (not exactly, not grossly off)
@@ -102,7 +111,7 @@ def make_initial(name, n, dim, precision, cap, seed):
     return m
 
 
-INITIALS = ["product", "ghz", "random", "random_canonical", "random_fat", "thr_lo", "thr_hi", "near_iso"]
+INITIALS = ["product", "ghz", "random", "random_canonical", "random_fat", "thr_lo", "thr_hi", "near_iso", "ghz_padded"]
 
 
 def fixed_other(n, dim, precision, cap, seed):
